@@ -37,6 +37,7 @@ def run(chk):
                 "pattern, v && w, v || w for all 40 w}; distinct = distinct (position, kind of v, falsey?, kind of w)")
     chk.exhaustive = True
     chk.floor = 1000
+    chk.rule += '; plus filter programs end to end: selection by action-less filters (3 packets), filters with an action never write, a non-matching filter leaves the later filters alone'
     chk.assumptions = ["the 40 representatives stand for their kinds (one falsey and one truthy member per kind where both exist)"]
     PRE = "let __t = []; fn r(x) { push(__t, 1); x }\nlet __o = [];\n"
     cases = []
